@@ -76,6 +76,11 @@ func runC02(t *testing.T, seed uint64, planJSON []byte, tier string) (res *Resul
 		plan.Episodes = plan.Episodes[:1]
 		plan.Episodes[0].Outcome = "commit"
 		plan.Episodes[0].StopOnErr = true
+		// (an application that commits after a statement error is outside the
+		// episodes of this engine: with injected faults the failed statement may
+		// already have been applied when its image query fails)
+		plan.Opts.ContinueAfterError = false
+		plan.Episodes[0].RetryOnce = plan.Opts.DedicatedConn
 	}
 	res.Harness = runBubble(t, func(t *testing.T) {
 		r := setupAT(seed, tape, plan, "C02", res)
